@@ -282,7 +282,7 @@ class C04:
     prop = "C04"
     level = "exploration"
     design_ref = "DESIGN.md 3.4"
-    tiers = {"quick": {"runs": 12000, "budget_s": 60, "chunk": 60, "twice_every": 0, "shrink_s": 40},
+    tiers = {"quick": {"runs": 60000, "budget_s": 80, "chunk": 150, "twice_every": 0, "shrink_s": 40},
              "thorough": {"runs": 1500000, "budget_s": 840, "chunk": 200, "twice_every": 0, "shrink_s": 90}}
     rule = ("one run = one environment (synthetic / lambda / class-based / supervised from sequences, CSV or LibSVM lines / result-based source "
             "+ 0-5 built-in filters with sampled parameters) and one history of 3-12 operations on that one object: full read, partial read of k "
